@@ -115,10 +115,22 @@ def z3_check(hyps: Sequence, goal, timeout_ms=None, tactic: Optional[str] = None
                 except z3.Z3Exception:
                     break
             if not proved:
+                # the same conjunct once more with the default configuration (model-based instantiation on): some conjuncts need it
+                s = z3.Solver()
+                s.set("timeout", int(max(3000, min(10000, (budget - time.time()) * 1000))))
+                s.set("random_seed", int(seed))
+                for h in hyps:
+                    s.add(h)
+                s.add(z3.Not(g))
+                try:
+                    proved = s.check() == z3.unsat
+                except z3.Z3Exception:
+                    proved = False
+            if not proved:
                 ok = False
                 break
         if ok:
-            return Verdict("discharged", "z3:ematching", time.time() - t0)
+            return Verdict("discharged", "z3:per-conjunct", time.time() - t0)
     if tactic:
         s = z3.Then(z3.Tactic("simplify"), z3.Tactic("solve-eqs"), z3.Tactic(tactic)).solver() \
             if tactic != "default" else z3.Solver()
